@@ -12,10 +12,10 @@ package main
 // density itself and the class constants lie in the declared domain (O5).
 
 import (
-	"go/token"
 	"fmt"
 	"go/ast"
 	"go/constant"
+	"go/token"
 	"strings"
 )
 
